@@ -310,7 +310,11 @@ class Simulator(EventProducer, SimulatorInterface, Generic[TIME]):
         self._model = model
         self._simulator_time = replication.start_sim_time
         # construct_model() builds the model, including its output statistics, 
-        # anew for every replication
+        # anew for every replication; the statistics of the previous 
+        # replication stop listening to producers that outlive a replication
+        for statistic in model.output_statistics().values():
+            for producer, event_type in getattr(statistic, '_producers', []):
+                producer.remove_listener(event_type, statistic)
         model.output_statistics().clear()
         model.construct_model()
         self._run_state = RunState.INITIALIZED
